@@ -180,6 +180,21 @@ def gen_filler(g, cfg, sigs, state):
         # a seeded call that fails midway, after the global generator was reseeded
         r = g.random()
         seed = g.choice(cfg["seeds"])
+        shared = [s for s in sigs if s.get("m", {}).get("id") and s["api"] in SAMPLERS]
+        if shared and g.random() < 0.5:
+            # the failing call is made on a long-lived model that also serves a signature
+            s = g.choice(shared)
+            rec = {"op": "call", "api": s["api"], "seed": g.choice([seed, s["seed"], None]), "m": copy.deepcopy(s["m"]),
+                   "args": copy.deepcopy(s["args"]), "on_shared": True}
+            if s["api"] == "anm.sample":
+                p = len(rec["m"]["spec"]["noise"])
+                kind = g.choice(["do", "shift", "noise"])
+                rec["args"][kind] = [[g.randrange(p), ["failing", 1, ["noise.normal", 0, 1], "RuntimeError"]]]
+                rec["fail"] = "callable.raise"
+            else:
+                rec["arm"] = ["np.random.multivariate_normal", 1, g.choice(["MemoryError", "LinAlgError"])]
+                rec["fail"] = "seam.raise"
+            return rec
         if r < 0.5:
             rec = gen_call(g, cfg, "anm.sample", seed)
             p = len(rec["m"]["spec"]["noise"])
@@ -429,12 +444,18 @@ def oracles(w, pristine_budget):
                     w.probes["pair.seed0"] += 1
                 if G.seed_is_numpy(rec["seed"]):
                     w.probes["pair.numpy_integer_seed"] += 1
+                if G.seed_value(rec["seed"]) >= 2 ** 32:
+                    w.probes["pair.seed>=2**32"] += 1
                 if "rng.reseed" in kinds:
                     w.probes["pair.sep.reseed"] += 1
                 if kinds and kinds <= {"rng.draw", "gc", "rng.stdlib", "rng.getstate"} and "rng.draw" in kinds:
                     w.probes["pair.sep.draw_only"] += 1
                 if "call.fail" in kinds:
                     w.probes["pair.sep.failed_seeded_call"] += 1
+                    mid0 = rec.get("m", {}).get("id") if rec.get("m") else None
+                    if mid0 and any(e["rec"].get("fail") and e["rec"].get("on_shared") and e["rec"]["m"].get("id") == mid0
+                                    for e in evs[a + 1:b]):
+                        w.probes["pair.sep.failed_call_on_same_model"] += 1
                 if "entropy" in kinds:
                     w.probes["pair.sep.entropy"] += 1
                 if "rng.stdlib" in kinds:
@@ -515,7 +536,8 @@ ASSUMPTIONS = [
 
 REQUIRED_PROBES = ["pair.nontrivial", "pair.seed0", "pair.sep.reseed", "pair.sep.draw_only",
                    "pair.sep.failed_seeded_call", "pair.sep.entropy", "pair.sep.py_random", "pair.sep.setstate",
-                   "pair.sep.intervened_call_on_shared_model", "pair.different_clients", "pair.numpy_integer_seed"] + \
+                   "pair.sep.intervened_call_on_shared_model", "pair.different_clients", "pair.numpy_integer_seed", "pair.sep.failed_call_on_same_model",
+                   "pair.seed>=2**32"] + \
                   ["api:" + a for a in APIS] + ["noise:" + n for n in G.NOISE_FACTORIES] + \
                   ["nd:" + a for a in SAMPLERS] + ["nd.on_model_with_seeded_history"]
 
